@@ -86,6 +86,16 @@ CHECKS = {
          "(i) after every completed full sync the standby's store and received-session map equal the snapshot body the active actually served; (ii) for every connected interval the applied op ids are exactly the pushes that returned inside it, in push order (lost / reordered / duplicated / never-pushed classes named from the wire log); (iii) at every settle point (link up, sentinel applied) the tables are equal, each difference attributed to its last change. Layer A: exhaustive up to session renaming at (depth, ids) (6,2),(5,3),(4,4) quick / (8,2),(7,3),(6,4) thorough in immediate and one-step-lag delivery, plus random walks with failed GETs; layer B: 72 / 1000 scenarios with bursts to 1200, stalled links, clean and aborted cuts.",
          "Trusted: the push/store/wire logs stamped from one counter; FIFO of the client channel and the HTTP stream. One standby; TLS mode not driven.",
          "DESIGN.md §5 C13"),
+ "C08": ("c08_accounting", "fault_enumeration",
+         "crash-point enumeration: the real AccountingManager runs in child processes inside a testing/synctest bubble against a scripted loopback UDP RADIUS server owned by the parent; each script runs un-killed once and then once per (verifPoint marker, occurrence) with SIGKILL there, followed by restart from the same persistence directory and a quiesce incarnation; the oracle judges the concatenated stream of accepted Accounting-Requests and the directory contents",
+         "Per session over all incarnations: Stop only after Start, no record for an unstarted id, every started session eventually has an accepted Stop (or it is durably queued while the server stays down), exactly one Stop absent a crash, records carry the session's own identifiers (hardware addresses of 0-20 bytes), gigawords*2^32+octets equals the 64-bit counter for boundary and random values. 35 scripts / 721 kill cases in quick, 400 / 7629 in thorough, outages decided per transmission (closed port).",
+         "Trusted: the scripted RADIUS server's attribute decoder and retransmission collapsing; SIGKILL keeps completed writes (torn writes and fsync/power-loss durability are not reached); outages stay within the retry budget.",
+         "DESIGN.md §5 C08"),
+ "C09": ("c09_decoders", "exploration",
+         "decoder hammer under the race-detector build (checkptr): 30 network-facing entry points in every protocol state are fed systematic and seeded mutants in child processes with a journal-before-feed protocol; recovered panics, process deaths, receive-buffer over-read markers, a reproduced 10 s watchdog and a CPU-time scaling probe are the oracles",
+         "Every entry point (PPPoE parsers and server receive loop with sessions in every phase, LCP/IPCP/IPv6CP in all 10 states, PAP/CHAP, keep-alive, DHCPv4 handler and option 82, DHCPv6 message and nested option parsers and handler, CoA listener, RADIUS attributes and client response path, HA sync decoder and handler, FTP/SIP ALG, ZTP vendor options) gets truncation at every byte, interesting length values and 20k (quick) / 100k (thorough) seeded mutants of 0-2048 bytes; inputs are passed with cap == len so any over-read panics; a child death is attributed to the journalled input and reproduced in a fresh process.",
+         "Trusted: panic attribution by innermost bng frame; the scaling probe only refutes gross super-quadratic behaviour (>= 6x per doubling twice), it cannot establish linearity.",
+         "DESIGN.md §5 C09"),
 }
 
 REASON_TODO = "check not yet built in this revision of /verif (planned in DESIGN.md §5); nothing is claimed for it"
